@@ -54,6 +54,7 @@ func implCR(f []string, o *oracleSink) string {
 	var all []byte
 	total := 0
 	ended, eof := false, false
+	lastRead := ""
 	// one Read; returns false when the whole run has to stop (anomaly)
 	readOne := func(n int) bool {
 		buf := make([]byte, n)
@@ -76,8 +77,9 @@ func implCR(f []string, o *oracleSink) string {
 			notes = append(notes, "BADCOUNT")
 			return false
 		}
+		lastRead = fmt.Sprintf("%d/%d/%s", got, fnv(buf[:got]), errName(err))
 		if len(res) < 60 {
-			res = append(res, fmt.Sprintf("%d/%d/%s", got, fnv(buf[:got]), errName(err)))
+			res = append(res, lastRead)
 		}
 		all = append(all, buf[:got]...)
 		total += got
@@ -106,7 +108,7 @@ func implCR(f []string, o *oracleSink) string {
 				notes = append(notes, "READ-AFTER-EOF")
 			}
 		} else if src.failAt >= 0 && src.calls() > src.failAt {
-			if len(res) == 0 || !strings.HasSuffix(res[len(res)-1], "/injected") {
+			if !strings.HasSuffix(lastRead, "/injected") {
 				notes = append(notes, "SOURCE-ERROR-NOT-PASSED")
 			}
 		} else if final && aerr == nil && kvValid && !eof && len(notes) == 0 && hadReads && last > 0 {
@@ -128,7 +130,7 @@ func implCR(f []string, o *oracleSink) string {
 				stop = true
 			}
 			res = append(res, "-")
-			all, ended, eof, hadReads, last = nil, false, false, false, 0
+			all, ended, eof, hadReads, last, lastRead = nil, false, false, false, 0, ""
 		case strings.HasPrefix(t, "A="):
 			res = append(res, errName(apply(t[2:])))
 		default:
@@ -236,6 +238,9 @@ func genCR(w *bufio.Writer, thorough bool, r *Rng) {
 			k := 1 + r.Intn(3)
 			for j := 0; j < k; j++ {
 				toks = append(toks, fmt.Sprint(r.Pick([]int{1, 2, 5, 7, 15, 100, 4096, 70000})))
+				if r.Intn(8) == 0 {
+					toks = append(toks, "A=bs=262144") // Apply after the first Read: refused, the stream goes on
+				}
 			}
 		}
 		toks = append(toks, fmt.Sprint(r.Pick([]int{4096, 65536, 100000})))
